@@ -1669,4 +1669,4 @@ mod tests {
 
 #[cfg(kani)]
 #[path = "/verif/harness/may/sync_mpsc.rs"]
-mod verif_kani;
+pub(crate) mod verif_kani;
